@@ -224,9 +224,10 @@ def run(ctx):
     # ---- R07.7
     import itertools
     fam = {"all 8-byte buffers `/\\0\\0\\0,xyz`": [b"/\0\0\0," + bytes(t_) for t_ in itertools.product((0, 1, ord("i"), ord("s"), ord("b"), 0xff), repeat=3)],
-           "probe messages cut at every offset": [], "probe messages with one zero byte made non-zero": [], "probe messages with a blob length replaced": []}
+           "probe messages cut at every offset": [], "probe messages with one zero byte made non-zero": [], "probe messages with a blob length replaced": [], "the probe messages themselves": []}
     for adr, ty, va in OR.PROBES:
         data, slots = OR.layout(adr, ty, va)
+        fam["the probe messages themselves"].append(data)
         fam["probe messages cut at every offset"] += [data[:k_] for k_ in range(1, len(data))]
         fam["probe messages with one zero byte made non-zero"] += [data[:i_] + b"\1" + data[i_ + 1:] for i_, b_ in enumerate(data) if b_ == 0]
         for t_, off in slots:
